@@ -118,6 +118,26 @@ func Ranges(ix []ref.Range) []tensor.Range {
 	return r
 }
 
+// ObjCache, when non-nil, makes Apply reuse ONE component object (activation,
+// loss) per distinct operation description for as long as the cache lives, the
+// way a training program holds on to its layers and losses. nil: a fresh
+// object per call. Set and cleared by the case that wants reuse (workers run
+// one case at a time).
+var ObjCache map[string]any
+
+func cached[T any](key string, mk func() (T, error)) (T, error) {
+	if ObjCache != nil {
+		if o, ok := ObjCache[key]; ok {
+			return o.(T), nil
+		}
+	}
+	o, err := mk()
+	if err == nil && ObjCache != nil {
+		ObjCache[key] = o
+	}
+	return o, err
+}
+
 // Apply runs one model-described operation on the real code.
 func Apply(op ref.Op, in []tensor.Tensor) (tensor.Tensor, error) {
 	x := in[0]
@@ -203,25 +223,36 @@ func Apply(op ref.Op, in []tensor.Tensor) (tensor.Tensor, error) {
 	case "Concat":
 		return tensor.Concat(append([]tensor.Tensor(nil), in...), op.Dim)
 	case "Relu":
-		return activations.NewRelu().Forward(x)
+		o, _ := cached(op.String(), func() (*activations.Relu, error) { return activations.NewRelu(), nil })
+		return o.Forward(x)
 	case "LeakyRelu":
-		return activations.NewLeakyRelu(&activations.LeakyReluConfig{M: op.F}).Forward(x)
+		o, _ := cached(op.String(), func() (*activations.LeakyRelu, error) {
+			return activations.NewLeakyRelu(&activations.LeakyReluConfig{M: op.F}), nil
+		})
+		return o.Forward(x)
 	case "Sigmoid":
-		return activations.NewSigmoid().Forward(x)
+		o, _ := cached(op.String(), func() (*activations.Sigmoid, error) { return activations.NewSigmoid(), nil })
+		return o.Forward(x)
 	case "TanhAct":
-		return activations.NewTanh().Forward(x)
+		o, _ := cached(op.String(), func() (*activations.Tanh, error) { return activations.NewTanh(), nil })
+		return o.Forward(x)
 	case "Softmax":
-		sm, err := activations.NewSoftmax(&activations.SoftmaxConfig{Dim: op.Dim})
+		sm, err := cached(op.String(), func() (*activations.Softmax, error) {
+			return activations.NewSoftmax(&activations.SoftmaxConfig{Dim: op.Dim})
+		})
 		if err != nil {
 			return nil, err
 		}
 		return sm.Forward(x)
 	case "MSE":
-		return losses.NewMSE().Compute(x, in[1])
+		o, _ := cached(op.String(), func() (*losses.MSE, error) { return losses.NewMSE(), nil })
+		return o.Compute(x, in[1])
 	case "BCE":
-		return losses.NewBCE().Compute(x, in[1])
+		o, _ := cached(op.String(), func() (*losses.BCE, error) { return losses.NewBCE(), nil })
+		return o.Compute(x, in[1])
 	case "CE":
-		return losses.NewCE().Compute(x, in[1])
+		o, _ := cached(op.String(), func() (*losses.CE, error) { return losses.NewCE(), nil })
+		return o.Compute(x, in[1])
 	case "FC":
 		// a layer whose parameters are the given tensors (replaced through Weights())
 		sh := in[1].Shape()
